@@ -614,11 +614,23 @@ fn run_mode(scenario: u32, choices: &[u8], hostile: bool) -> Outcome {
   }
 
   // ---------------------------------------------------------------- the victim node
+  // Sometimes every user reader is also matched (at RTPS level) with writers of a third
+  // participant that happen to carry the entity ids of the peer's OTHER user writers - entity ids
+  // are only unique per participant. A submessage with reader id UNKNOWN then has several
+  // candidate readers with different protection; each must be judged by its own.
+  let same_writer_ids_elsewhere = c.chance(110);
+  let user_writer_ids: Vec<EntityId> = eps.iter().filter(|e| e.is_reader && e.name.starts_with("user-reader")).map(|e| e.remote).collect();
+  let third = rig::node_prefix(54);
   let mut node = Node::new_with_plugins(0, Some(SecurityPluginsHandle::new(pv)));
   for e in eps.iter_mut() {
     if e.is_reader {
       let q = if e.stateless_like { rig::best_effort_qos() } else { rig::reliable_qos() };
       let slot = node.add_reader_with(e.local, &format!("c17_{}", e.name), &q, e.stateless_like, 64);
+      if same_writer_ids_elsewhere && e.name.starts_with("user-reader") {
+        for w in user_writer_ids.iter().filter(|w| **w != e.remote) {
+          node.reader_mut(slot).update_writer_proxy(rig::writer_proxy_for(GUID::new(third, *w), rig::node_locator(54)), &q);
+        }
+      }
       node.reader_mut(slot).update_writer_proxy(rig::writer_proxy_for(GUID::new(lp, e.remote), rig::node_locator(PEER)), &q);
       if hostile {
         node.reader_mut(slot).update_writer_proxy(rig::writer_proxy_for(GUID::new(wp, e.remote), rig::node_locator(WELL_BEHAVED)), &q);
@@ -1108,6 +1120,9 @@ fn run_mode(scenario: u32, choices: &[u8], hostile: bool) -> Outcome {
         }
       }
     }
+  }
+  if same_writer_ids_elsewhere {
+    o.label("same-writer-entity-ids-in-another-participant");
   }
   o.label(match rtps {
     Prot::None => "rtps-none",
